@@ -763,6 +763,24 @@ RefResult run(const Model& m, const char* bytes, int64_t n, const RunOptions& op
                 if (k == 0) { v.digest = v.sdigest = sim::empty_default_digest(); v.text = "()"; }
                 else v = values[values.size() - 1];   // unit rule: the value passes through
             }
+            else if (r.ftor == F_ELEMENT)
+            {
+                if (r.eidx < 1 || size_t(r.eidx) > k) { res.step_limit = true; break; }
+                v = values[values.size() - k + size_t(r.eidx) - 1];
+            }
+            else if (r.ftor == F_CREATE_LIST)
+            {
+                v.digest = v.sdigest = sim::list_digest_begin(); v.text = "[";
+            }
+            else if (r.ftor == F_EMPLACE_BACK)
+            {
+                if (k < 2) { res.step_limit = true; break; }
+                v = values[values.size() - k];
+                const Val& e = values[values.size() - k + 1];
+                v.digest = sim::list_digest_add(v.digest, e.digest);
+                v.sdigest = sim::list_digest_add(v.sdigest, e.sdigest);
+                if (v.text.size() + e.text.size() < 4096) v.text += " " + e.text;
+            }
             else
             {
                 uint64_t h = sim::node_digest_begin(act.arg), hs = h;
